@@ -11,9 +11,10 @@ SIZES = {"quick": 12000, "thorough": 300000}
 BATCH = 3000
 RULE = ("op sequences: first `clock T0` (T0 = 1.9e12 + offsets on/around bucket and cycle boundaries), 0-5 system rules over the five "
         "metric types x strategies {-1,1,0,2} with boundary triggers (integers the aggregates can reach, +-0.5, 0, +Inf, a slice of "
-        "invalid and NaN triggers), injected load/cpu at/around the triggers, then 10-90 ops: inbound / outbound / default-type (no WithTrafficType option) entries over 4 resources "
+        "invalid and NaN triggers), injected load/cpu readings exactly at a loaded trigger, at the adjacent floats (bit pattern +-1), +-1e-9, +-1e-4, +-1e-3, +-0.25, "
+        "well above, plus NaN / +-Inf / negative / -0 / denormal readings, then 10-90 ops: inbound / outbound / default-type (no WithTrafficType option) entries over 4 resources "
         "with batch counts {0,1,2,3,7,none}, exits in random order, time steps {0,1,50..400,499,500,501,999,1000,1001,>array, to next bucket "
-        "boundary}, rule reloads, stat reads; four profiles (mixed, burst = many entries per bucket, bbr = load above trigger with "
+        "boundary}, rule reloads (fresh slices, and the same slice after an in-place change of one rule object), stat reads; four profiles (mixed, burst = many entries per bucket, bbr = load above trigger with "
         "completions in the window so that the capacity estimate is the deciding term, rt = response times of a few ms against avgRT triggers between whole ms). Non-trivial = the case contains at least one "
         "system block and one inbound pass decided while >=1 rule was loaded; distinct by (multiset of loaded (metric,strategy), "
         "sequence of decisions).")
@@ -72,13 +73,60 @@ def gen_rule(rng):
     return f"{metric}/{strategy}/{fb(trigger_for(rng, metric))}"
 
 
+def unfb(tok):
+    return struct.unpack(">d", struct.pack(">Q", int(tok[2:], 16)))[0]
+
+
+def rule_valid(tok):
+    m, _, f = tok.split("/")
+    v = unfb(f)
+    return int(m) < 5 and v == v and v >= 0 and not (int(m) == 4 and v > 1)
+
+
+def gen_valid_rule(rng):
+    """a rule IsValidSystemRule accepts (for `remod`: an in-place change of a loaded rule object is only meaningful
+    for the property when the changed slice is itself a valid load)"""
+    while True:
+        r = gen_rule(rng)
+        if rule_valid(r):
+            return r
+
+
 def gen_rules(rng):
     n = rng.choice([0, 1, 1, 1, 2, 2, 3, 4, 5])
     return "load " + " ".join(gen_rule(rng) for _ in range(n)) if n else "load"
 
 
+def nextafter(x, up):
+    """the adjacent float64 (bit pattern +-1); the comparison `reading > trigger` of two float64 is exact, so readings
+    one ulp / 1e-9 / 1e-4 / 1e-3 off the trigger are legitimate probes (no guard band needed for this comparison)"""
+    if x != x or x in (float("inf"), float("-inf")):
+        return x
+    if x == 0.0:
+        return 5e-324 if up else -5e-324
+    b = struct.unpack(">Q", struct.pack(">d", x))[0]
+    b += 1 if (x > 0) == up else -1
+    return struct.unpack(">d", struct.pack(">Q", b))[0]
+
+
+def near(rng, t):
+    k = rng.randrange(12)
+    GEN_STATS["reading-vs-trigger:" + ["equal", "next-float", "prev-float", "+1e-9", "-1e-9", "+1e-4", "-1e-4", "+1e-3", "-1e-3",
+                                       "+0.25", "-0.25", "+1..5"][k]] += 1
+    if k == 0:
+        return t
+    if k == 1:
+        return nextafter(t, True)
+    if k == 2:
+        return nextafter(t, False)
+    if k < 9:
+        d = [1e-9, 1e-4, 1e-3][(k - 3) // 2]
+        return t + d if (k - 3) % 2 == 0 else t - d
+    return t + [0.25, -0.25, rng.choice([1, 5])][k - 9]
+
+
 def sys_value(rng, kind, rules_line):
-    """a reading at / just around a trigger of a loaded rule of this kind, else a typical one"""
+    """a reading at / just around a trigger of a loaded rule of this kind, else a typical or special one"""
     m = "0" if kind == "load" else "4"
     trig = []
     for tok in rules_line.split()[1:]:
@@ -86,10 +134,11 @@ def sys_value(rng, kind, rules_line):
         if p[0] == m and p[2] not in (NAN, PINF):
             trig.append(struct.unpack(">d", struct.pack(">Q", int(p[2][2:], 16)))[0])
     if trig and rng.random() < 0.8:
-        t = rng.choice(trig)
-        return t + rng.choice([0, 0.25, -0.25, 1, 0.001, 5])
-    if rng.random() < 0.03:
-        return float("nan")
+        return near(rng, rng.choice(trig))
+    r = rng.random()
+    if r < 0.12:
+        GEN_STATS["reading:special"] += 1
+        return rng.choice([float("nan"), float("inf"), float("-inf"), -0.0, -3.5, 5e-324])
     return rng.choice([-1, 0, 0.3, 0.6, 1, 3, 10])
 
 
@@ -111,7 +160,8 @@ def gen_case(rng, cid):
         extra = [] if rng.random() < 0.6 else [gen_rule(rng)]
         rules = "load " + " ".join([f"{m}/1/{fb(t)}"] + extra)
         GEN_STATS[f"rule:m{m}:s1"] += 1
-        ops.append(f"sys {'load' if m == 0 else 'cpu'} {fb(t + rng.choice([0.25, 1, 5]))}")
+        # armed by a margin, or by a hair (next float, 1e-9, 1e-4 above the trigger)
+        ops.append(f"sys {'load' if m == 0 else 'cpu'} {fb(rng.choice([t + 0.25, t + 1, t + 5, nextafter(t, True), t + 1e-9, t + 1e-4, t + 1e-3]))}")
     elif profile == "rt":
         # an avgRT rule whose trigger lies between whole milliseconds (the floor of the average matters)
         t = rng.choice([1, 2, 3, 5, 10, 20, 50]) + rng.choice([0.5, 0.5, 0.25, 0.75, 0])
@@ -158,8 +208,19 @@ def gen_case(rng, cid):
             kind = rng.choice(["load", "cpu"])
             ops.append(f"sys {kind} {fbv(sys_value(rng, kind, rules))}")
         elif r < 0.93:
-            rules = gen_rules(rng)
-            ops.append(rules)
+            valid_idx = [k for k, tok in enumerate(rules.split()[1:]) if rule_valid(tok)]
+            if valid_idx and rng.random() < 0.4:
+                # the caller edits one of its (in force) rule objects in place and loads the same slice again
+                i = rng.choice(valid_idx)
+                nr = gen_valid_rule(rng)
+                toks = rules.split()
+                toks[1 + i] = nr
+                rules = " ".join(toks)
+                ops.append(f"remod {i} {nr}")
+                GEN_STATS["remod"] += 1
+            else:
+                rules = gen_rules(rng)
+                ops.append(rules)
         else:
             ops.append("stat")
     # every case returns the (not time based) gauge to zero
@@ -251,7 +312,9 @@ def nontrivial(case, impl):
     for l in impl:
         op, _, r = l.partition(" => ")
         t = op.split()
-        if t[0] == "load":
+        if t[0] == "remod":
+            loaded = loaded + (tuple(t[2].split("/")[:2]),)
+        elif t[0] == "load":
             loaded = tuple(sorted(tuple(x.split("/")[:2]) for x in t[1:]))
         elif t[0] == "entry":
             decisions.append((t[3], r))
